@@ -1,5 +1,6 @@
 """C05 - parser error discipline: only ParserError, with a usable line number."""
 from vlib.runner import Job
+from symx import lift_call
 from vlib import gherkin
 
 CALL_PROFILE = ["behave.parser"]
@@ -206,11 +207,48 @@ def h_inject(sx):
         return ["INTERNAL", et]
 
 
+def h_reuse(sx):
+    """One parser object used again (as Context.execute_steps does with feature.parser): what an earlier parse left behind
+    must not make a faulty steps text acceptable - an And/But without a preceding step is still reported at its line."""
+    import logging
+    logging.disable(logging.CRITICAL)
+    from behave import parser
+    from vlib import gtree
+    tree = gtree.TREES[sx.params["tree"]]
+    R = gtree.Renderer()
+    R.feature(tree)
+    feat = parser.parse_feature("\n".join(l.variants[0] for l in R.lines) + "\n", filename="first.feature")
+    pool = ["And orphan", "But orphan", "  And orphan", "Given fine", "When fine", "* fine", "Then fine"]
+    lines = [sx.choice("L%d" % i, pool) for i in range(sx.params.get("k", 2))]
+    text = gherkin.make_text(sx, lines)
+    first_is_orphan = lift_call(lambda l: l.strip().split()[0] in ("And", "But"), (lines[0],), {})
+
+    def det(m):
+        return {"first_document": sx.params["tree"], "second_text": [sx.eval(l, m) if m is not None else l for l in lines]}
+    try:
+        steps = feat.parser.parse_steps(text)
+    except parser.ParserError as e:
+        ln = e.line
+        sx.check(first_is_orphan, "C05.reused-parser-rejects-only-faulty-text", detail=lambda m: dict(det(m), error=str(e)[:200]))
+        sx.check(ln == 1, "C05.error-at-injected-line", detail=lambda m: dict(det(m), reported_line=ln))
+        return ["ParserError", ln]
+    except Exception as e:      # noqa
+        et = type(e).__name__
+        sx.check(False, "C05.only-ParserError", detail=lambda m: dict(det(m), exception=et))
+        return ["INTERNAL", et]
+    sx.check(lift_call(lambda b: not b, (first_is_orphan,), {}), "C05.injected-fault-is-reported",
+             detail=lambda m: dict(det(m), accepted_as=[[str(sx.eval(s_.step_type, m)), str(sx.eval(s_.name, m))] if m is not None else [str(s_.step_type), str(s_.name)] for s_ in steps]))
+    return ["accepted", len(steps)]
+
+
 _soup_jobs = jobs
 
 
 def jobs(tier, seed):       # noqa: F811
     js = _soup_jobs(tier, seed)
+    for t in ("basic", "o-rule"):
+        js.append(Job("reuse.%s" % t, "props.c05:h_reuse", {"tree": t, "k": 2},
+                      reach=["C05.injected-fault-is-reported", "C05.error-at-injected-line"], min_paths=3, cost=50, validate=30, closure=False))
     trees = ["basic", "outline", "bg-rule", "mixed", "o-rule"]
     for t in trees:
         for f in FAULTS:
